@@ -22,6 +22,24 @@ theorem {shape}_logpdf_dual_{p} ({' '.join(allv)} : ℝ) {pos} :
   lift_all
   side_pos
 ''')
+# ---- expected rates of a shape with an interpolated (code 4p) systematic, luminosity and bin-wise factors: every bin, every direction
+outB = []
+shape = 'shapeB'
+symsB, parsB = sig(f'{shape}_bin0')[:2]
+for b in range(2):
+    for p_ in parsB:
+        allv = symsB + parsB
+        dual_args = ' '.join(('(Dual.var t)' if v == p_ else f'(Dual.const {v})') for v in allv)
+        real_args = ' '.join(('t' if v == p_ else v) for v in allv)
+        outB.append(f'''/-- {shape}, bin {b}: the dual-number evaluation of the expected rate, seeded in `{p_}`, carries its true partial derivative (away from the
+breakpoints ±1 of the interpolated systematic, and from 0 where the dual formula of `pow(α, 2)` divides by α) -/
+theorem {shape}_bin{b}_dual_{p_} ({' '.join(allv)} : ℝ) (h0 : p_sysH ≠ 0) (h1 : p_sysH ≠ 1) (hm : p_sysH ≠ -1) :
+    IsLift (fun t => Gen.{shape}_bin{b} (Dual.prim realPrim) {dual_args})
+           (fun t => Gen.{shape}_bin{b} realPrim {real_args}) {p_} := by
+  unfold Gen.{shape}_bin{b}
+  lift_all
+  all_goals (intro hh; norm_num at hh; first | exact h0 hh | exact h1 hh | exact hm hh | exact h0 hh.symm | exact h1 hh.symm | exact hm hh.symm)
+''')
 p = '/verif/lean/PyhfProofs/Properties/C13_Gen.lean'
 s = open(p).read()
 marker = '/-! ## the composed log-likelihood of shape F'
@@ -30,6 +48,9 @@ else: s = s.replace('end Pyhf.Props.C13\n', '')
 s += marker + ''' (bin-wise constraints: uncorrelated shape + MC-statistical, signal strength), every direction -/
 
 ''' + '\n'.join(out) + '''
+/-! ## expected rates of shape B (interpolated shape systematic code 4p, luminosity, uncorrelated shape, MC-statistical), every bin and direction -/
+
+''' + '\n'.join(outB) + '''
 /-- in words: the derivative the reference computes for the signal strength is `HasDerivAt` of the code's log-likelihood -/
 theorem shapeF_reference_gradient_mu (s0 s1 es0 es1 b0 b1 u0 u1 eb0 eb1 p_mu p_uncorr_0 p_uncorr_1 p_stat_SR_0 p_stat_SR_1 d0 d1 a0 a1 a2 a3 : ℝ) (hs0 : 0 < s0) (hs1 : 0 < s1) (hes0 : 0 < es0) (hes1 : 0 < es1) (hb0 : 0 < b0) (hb1 : 0 < b1) (hu0 : 0 < u0) (hu1 : 0 < u1) (heb0 : 0 < eb0) (heb1 : 0 < eb1) (hp_mu : 0 < p_mu) (hp_uncorr_0 : 0 < p_uncorr_0) (hp_uncorr_1 : 0 < p_uncorr_1) (hp_stat_SR_0 : 0 < p_stat_SR_0) (hp_stat_SR_1 : 0 < p_stat_SR_1) :
     HasDerivAt (fun t => Gen.shapeF_logpdf realPrim (Gen.np_poisson_logpdf realPrim (xlogy realPrim) lgammaR) (Gen.np_normal_logpdf realPrim Real.pi)
